@@ -1258,6 +1258,9 @@ class _KindFactory:
     ):
         for param in process.parameters:
             self.update_action_parameter(param)
+        # the preconditions of a process are conditions of the problem like any other
+        for c in process.preconditions:
+            self.update_problem_kind_expression(c)
 
         continuous_fluents = set()
         fluents_in_rhs = set()
